@@ -236,6 +236,7 @@ theorem header_register {v : Val} (h : okRegister v = true) : Header (regToks v)
     · rename_i k
       exact Header.register n (LetOrInt.int k) (fun v hv => by cases hv; exact h)
     · exact Header.register n (LetOrInt.ident _) (fun v hv => by cases hv)
+    · exact Header.register n (LetOrInt.ident _) (fun v hv => by cases hv)
   | _ => simp [okRegister] at h
 
 theorem header_map {v : Val} (h : okMap v = true) : Header (mapToks v) (mapSx v) := by
